@@ -45,7 +45,7 @@ def run_case(case, rec):
     if io_['enc'] == 'ascii' and not iocommon.ascii_only(d.nodes):
         io_['enc'] = 'utf-8'
     delim, enc, target = io_['delim'], io_['enc'], io_['target']
-    nt = iocommon.nodetype_for(d.nodes)
+    nt = iocommon.nodetype_for(d.nodes, len(case['ops']))
     ctx = '%s delimiter=%r encoding=%s target=%s' % (case['cls'], delim, enc, target)
     rec.classify('target:' + target)
     rec.classify('delimiter:' + repr(delim))
